@@ -25,7 +25,7 @@ class _PathShim(object):
     w = self._w
     k = int(round((w.r.seconds() - w.t0) / 10.0))
     for name, lst in w.list_objs.items():
-      if lst.list_file == path and (k, name) in w.fs_faults and (k, name) not in w.fs_fired:
+      if w.list_paths[name] == path and (k, name) in w.fs_faults and (k, name) not in w.fs_fired:
         w.fs_fired.add((k, name))
         w.ctx.fault('list_file_vanished_between_exists_and_getmtime')
         raise OSError(errno.ENOENT, 'No such file or directory (injected)', path)
@@ -52,6 +52,35 @@ def same_number(a, b):
       return math.copysign(1.0, a) == math.copysign(1.0, b)
     return True
   return False
+
+
+class SimUDPPort(object):
+  """What a datagram protocol gets as its transport: the listening UDP port.  Closing it
+  (loseConnection / stopListening) ends the reception of datagrams for good."""
+
+  def __init__(self, world):
+    self.world = world
+    self.stopped = False
+
+  def loseConnection(self):
+    self.stopListening()
+
+  def stopListening(self):
+    self.stopped = True
+    self.world.ctx.log.add('udp-port-closed')
+
+  def pauseProducing(self):
+    pass
+
+  def resumeProducing(self):
+    pass
+
+  def getHost(self):
+    from twisted.internet.address import IPv4Address
+    return IPv4Address('UDP', '0.0.0.0', 2003)
+
+  def write(self, data, addr=None):
+    pass
 
 
 class IngestWorld(object):
@@ -89,6 +118,9 @@ class IngestWorld(object):
       import carbon.regexlist as rl
       from carbon.regexlist import WhiteList, BlackList
       self.list_objs = {'whitelist': WhiteList, 'blacklist': BlackList}
+      # where the documentation puts the two files (never asked of the objects under test)
+      conf_dir = os.path.join(os.environ['GRAPHITE_ROOT'], 'conf')
+      self.list_paths = {n: os.path.join(conf_dir, n + '.conf') for n in self.list_objs}
       for name, lst in self.list_objs.items():
         self.snapshot_list(name, lst, initial=True)
       # The reference follows the *documented* schedule (lists re-read every 10 s), on
@@ -102,7 +134,7 @@ class IngestWorld(object):
   def ref_list_tick(self):
     k = int(round((self.r.seconds() - self.t0) / 10.0))
     for name, lst in self.list_objs.items():
-      if (k, name) in self.fs_faults and lst.list_file and os.path.exists(lst.list_file):
+      if (k, name) in self.fs_faults and os.path.exists(self.list_paths[name]):
         continue          # the file vanished while it was being re-read: nothing changes
       self.snapshot_list(name, lst)
     self.r.callLater(10.0, self.ref_list_tick)
@@ -110,9 +142,9 @@ class IngestWorld(object):
   def snapshot_list(self, name, lst, initial=False):
     """Reference view of a list file as of a reload the timer really performed:
     re-read the file ourselves with the documented semantics."""
-    path = lst.list_file
+    path = self.list_paths[name]
     pats = []
-    if path and os.path.exists(path):
+    if os.path.exists(path):
       mtime = os.path.getmtime(path)
       key = (name, 'mtime')
       last = getattr(self, '_mt', {}).get(name, 0.0)
@@ -181,6 +213,8 @@ class IngestWorld(object):
         # a datagram protocol never sees connectionMade(): no peerName, no timeout
         proto = P.MetricDatagramReceiver()
         st['proto'] = proto
+        st['port'] = SimUDPPort(self)
+        proto.makeConnection(st['port'])
       self.clients.append(st)
     if not self.plan.get('late_connect'):
       for ci in range(len(self.clients)):
@@ -216,7 +250,13 @@ class IngestWorld(object):
       return
     if st['pos'] >= len(st['spec']['stream']) and not st['t'].disconnected:
       st['closed'] = True
-      st['t'].peer_close()
+      if ci in (self.plan.get('finish_reset') or ()):
+        # everything was delivered and read; the client then drops the connection with a
+        # reset (SO_LINGER 0, crash) instead of an orderly close
+        self.ctx.fault('client_reset_after_last_byte')
+        st['t'].peer_reset()
+      else:
+        st['t'].peer_close()
       self.r.run_due()
       for cj in range(len(self.clients)):
         self.connect(cj)
@@ -380,6 +420,13 @@ class IngestWorld(object):
         expected.append(a)
     self.ctx.log.add('dgram', ci, k)
     self.ctx.sigs.add('udp/datagram')
+    if st['port'].stopped:
+      # the socket is gone: the kernel would not hand this datagram to anybody
+      if expected:
+        self.ctx.violation(self.prop, 'udp-listener-closed', 'udp',
+                           'udp client %d: the daemon closed its UDP listening port; datagram %d with '
+                           '%d admissible datapoints has nowhere to go' % (ci, k, len(expected)))
+      return
     try:
       st['proto'].datagramReceived(d['data'], ('10.2.0.%d' % (ci + 1), 5000))
     except Exception as e:
@@ -425,8 +472,12 @@ class IngestWorld(object):
         ctx.log.add('advance', step[1])
       elif k == 'file':
         from . import boot
-        boot.write_file(step[1], step[2], int(self.r.seconds()) + 1)
+        # mtime: the next whole second (default), or the exact (sub-second) instant
+        exact = len(step) > 3 and step[3] == 'exact'
+        boot.write_file(step[1], step[2], self.r.seconds() if exact else int(self.r.seconds()) + 1)
         ctx.fault('list_file_' + ('deleted' if step[2] is None else 'rewritten'))
+        if exact:
+          ctx.probe('list_file_subsecond_mtime')
     # deliver whatever is left, in one chunk per client
     self.pause_after = None
     for rounds in range(len(self.clients) + 1):
